@@ -157,3 +157,7 @@ Qed.
 
 Lemma ex_kw_parsed : parse_hquery ex_kw = Some (mkHQ (Some 2) true None None None None "" (Some 105) None None None).
 Proof. vm_compute. reflexivity. Qed.
+
+(** why [1 <= limit] is needed: with limit 0 the ring keeps one entry *)
+Lemma ex_limit0 : forall e, hs_entries (hist_push (mkHStore 0 []) e) = [e].
+Proof. reflexivity. Qed.
